@@ -54,7 +54,9 @@ class NDJsonReader {
   }
 
   void VerifyFinished() {
-    if (unused_step_ || stream_.peek() != EOF) {
+    // (a stream that has already reported its end is not asked again: on a stream whose owner
+    // enabled exceptions that would throw)
+    if (unused_step_ || (!stream_.eof() && stream_.peek() != EOF)) {
       throw std::runtime_error("The stream was not read to completion.");
     }
   }
